@@ -390,6 +390,37 @@ def volumes_check(ctx, repo, pid="C02"):
                          witness=str([c[1] for c in hooks.geo_calls]))
 
 
+def cartesian_zero_borders(ctx, repo):
+    """POSITIVE: in the Cartesian position mode the border matrix is the adjacency matrix with its data replaced by the face areas.
+    A face area that is the literal 0 (written for a pair that the adjacency matrix lists) contradicts 'strictly positive entries on
+    one common pattern': the lift to the full grid keeps an entry only if it is truthy, so the pair stays in the adjacency and
+    distance matrices and disappears from the border matrix."""
+    pg = repo.cls(FG, "PositionGrid")
+    f = pg.methods.get("get_cartesian_surfaces")
+    ctx.instance("DEG")
+    if f is None:
+        ctx.inconclusive("DEG", "C02.cartesian.border.positive", "anchor vanished: PositionGrid.get_cartesian_surfaces", FG)
+        return
+    ctx.analysed(f)
+    # the list that becomes `.data`
+    data_assign = [n for n in ast.walk(f.node) if isinstance(n, ast.Assign) and isinstance(n.targets[0], ast.Attribute) and n.targets[0].attr == "data"]
+    names = {x.id for a in data_assign for x in ast.walk(a.value) if isinstance(x, ast.Name)}
+    zero = [c for c in ast.walk(f.node) if isinstance(c, ast.Call) and isinstance(c.func, ast.Attribute) and c.func.attr == "append" and
+            isinstance(c.func.value, ast.Name) and c.func.value.id in names and c.args and isinstance(c.args[0], ast.Constant) and
+            c.args[0].value in (0, 0.0) and not isinstance(c.args[0].value, bool)]
+    if not data_assign:
+        ctx.inconclusive("DEG", "C02.cartesian.border.positive", "construction of the Cartesian border data not recognised", f.where)
+    elif zero:
+        ctx.violate("DEG", "C02.cartesian.border.positive", "the Cartesian border matrix stores the literal 0 as the face area of pairs that the "
+                    "adjacency matrix lists as neighbours (faces with fewer than two finite vertices: open cells): entries are not strictly "
+                    "positive, and the full-grid lift drops them (`if el:`), so adjacency / distances and borders no longer share one pattern",
+                    f.where, src(zero[0]), witness="FullGrid('1', 'ico_4', '[0.1, 0.2]', position_grid_cartesian=True): 32 adjacency and distance "
+                    "entries, 4 border entries",
+                    key="DEG|molgri/space/fullgrid.py:PositionGrid.get_cartesian_surfaces|zero area appended for an adjacent pair")
+    else:
+        ctx.ok("DEG", "C02.cartesian.border.positive", "no constant zero is written as a Cartesian face area", f.where)
+
+
 def run(ctx, repo, tier):
     for nb_ctx in ("sym", "one") + ((2, 3) if tier == "thorough" else ()):
         for prop in GETTERS:
@@ -406,6 +437,7 @@ def run(ctx, repo, tier):
         ctx.instance("DISPATCH")
         ctx.check(vals == [prop], "DISPATCH", f"C02.getter.{g}", f"{g} selects property {prop!r}", m.where, witness=str(vals))
     volumes_check(ctx, repo, "C02")
+    cartesian_zero_borders(ctx, repo)
     # ------------------------------------------------------------ inherited: the position matrix P itself (C05): the Kronecker lift above keeps
     # symmetry / one common pattern only if P has them
     from ..driver import PrefixCtx
